@@ -363,6 +363,9 @@ impl DebugSession {
                 InternalEvent::Exited { .. } | InternalEvent::Terminated => {
                     // Handled by the lifecycle pre-scan above.
                 }
+                InternalEvent::Initialized => {
+                    self.send_event("initialized")?;
+                }
                 InternalEvent::Output { category, output } => {
                     self.send_event_body(
                         "output",
